@@ -138,7 +138,9 @@ class Sched(object):
     def enabled(op, ts=None):
         kind, obj = op
         if kind == "acquire":
-            return obj.holder is None
+            # (a re-entrant lock may be taken again by the thread that holds it)
+            return obj.holder is None or (getattr(obj, "reentrant", False) and ts is not None
+                                          and obj.holder == ts.tid)
         if kind == "wait":
             # threading.Event.wait returns once a set() has notified the waiter, even if the flag was cleared
             # again before the waiter ran (Condition semantics)
@@ -239,6 +241,28 @@ def make_threading(sched_ref):
         def locked(self):
             return self.holder is not None
 
+    class RLock(Lock):
+        """threading.RLock: the holder may acquire again; released when every acquire has been matched."""
+        reentrant = True
+
+        def __init__(self):
+            Lock.__init__(self)
+            self.depth = 0
+
+        def acquire(self, blocking=True, timeout=-1):
+            Lock.acquire(self, blocking, timeout)
+            self.depth += 1
+            return True
+
+        def release(self):
+            s = sched_ref[0]
+            if s is self.s:
+                s.announce("release", self)
+            self.depth -= 1
+            if self.depth <= 0:
+                self.depth = 0
+                self.holder = None
+
     class Event(object):
         def __init__(self):
             self.flag = False
@@ -305,7 +329,7 @@ def make_threading(sched_ref):
 
     mod = types.ModuleType("threading")
     mod.Lock = Lock
-    mod.RLock = Lock
+    mod.RLock = RLock
     mod.Event = Event
     mod.Thread = Thread
     mod.ThreadError = RuntimeError
